@@ -7,7 +7,7 @@ func propC10(c *Ctx, r *Report) {
 	r.NotDec = "that a retry after the fault clears reproduces the same ledger (follows from C02+C09+C01 where those hold); faults inside dependencies"
 	r.Trusted = []string{"x/tools go/ssa construction", "database/sql and factom client return a non-nil error on every fault"}
 	r.rule("E1/errflow", 100, "every effectful error-returning call site handles its error (idioms I1-I8)")
-	r.rule("E1/errflow/rows-iteration", 4, "rows.Next() iteration must be followed by a handled rows.Err()")
+	r.rule("E1/errflow/rows-iteration", 3, "rows.Next() iteration must be followed by a handled rows.Err()")
 	eff := computeEffects(c)
 	runErrflow(c, eff, r, c.RSync, "E1/errflow", true)
 	// state that survives a rollback
